@@ -254,7 +254,7 @@ func (c *Ctx) structSort(t types.Type, st *types.Struct) string {
 	var fs []string
 	for i := 0; i < st.NumFields(); i++ {
 		f := st.Field(i)
-		fs = append(fs, fmt.Sprintf("(%s.%s %s)", name, sanitize(f.Name()), c.sortOf(f.Type())))
+		fs = append(fs, fmt.Sprintf("(%s.%s %s)", name, fldName(f, i), c.sortOf(f.Type())))
 	}
 	c.sortDecls = append(c.sortDecls, fmt.Sprintf("(declare-datatypes ((%s 0)) (((mk_%s %s))))", name, name, strings.Join(fs, " ")))
 	return name
@@ -480,4 +480,12 @@ func sortedKeys[V any](m map[string]V) []string {
 	}
 	sort.Strings(ks)
 	return ks
+}
+
+// fldName: accessor name of struct field i (blank fields are numbered).
+func fldName(f *types.Var, i int) string {
+	if f.Name() == "_" {
+		return fmt.Sprintf("blank%d", i)
+	}
+	return sanitize(f.Name())
 }
